@@ -285,6 +285,9 @@ func init() {
 			e.unsupported("model limitation: %s", e.strArg(args[0], "vpUnsupported"))
 			return nil, true
 		},
+		"vpJSONFill": func(e *Engine, fr *Frame, args []Value) (Value, bool) {
+			return e.jsonFill(args), true
+		},
 		"vpSymbolic": func(e *Engine, fr *Frame, args []Value) (Value, bool) {
 			return smt.True, true
 		},
